@@ -242,13 +242,15 @@ Fixpoint simb (n : nat) (g1 : graph) (o1 : obj) (g2 : graph) (o2 : obj) : bool :
 
 (* ------------------------------------------------------------------ *)
 (* optimizeContentStreamUsage (optimize.go): the duplicate test for page content streams,
-   used when Configuration.OptimizeDuplicateContentStreams is set: same StreamLength and
-   bytes.Equal(sd.Raw, sd1.Raw).  The stream dictionaries are not compared. *)
-Definition contentStreamDup (o1 o2 : obj) : bool :=
-  match o1, o2 with
+   used when Configuration.OptimizeDuplicateContentStreams is set: a cached stream sd1 with
+   the same StreamLength as the new stream sd is a duplicate when
+   model.EqualObjects(*sd, *sd1, ctx.XRefTable, nil) says (true, nil); an error is returned. *)
+Definition contentStreamDup (fuel : nat) (g : graph) (cached new : obj) : cmp :=
+  match cached, new with
   | OStream _ r1, OStream _ r2 =>
-      Nat.eqb (length (rawbytes r1)) (length (rawbytes r2)) && beqb (rawbytes r1) (rawbytes r2)
-  | _, _ => false
+      if Nat.eqb (length (rawbytes r1)) (length (rawbytes r2))
+      then EqualObjects fuel g new cached [] else CF
+  | _, _ => CF
   end.
 
 (* ------------------------------------------------------------------ *)
